@@ -270,6 +270,25 @@ func c12CheckNode(n *btreeNode) string {
 			if msg := c12Equal(want, c12LogicalOf(d)); msg != "" {
 				return fmt.Sprintf("after updating cell %d (value of %d bytes replaced by %d bytes) on the page read back: %s", idx, len(old), len(nv), msg)
 			}
+			// an update the page refuses (a value over the limit) must leave it as it was
+			tooBig := make([]byte, maxValueSize+1)
+			var rerr error
+			func() {
+				defer func() {
+					if r := recover(); r != nil {
+						rerr = nil // a panic is not a refusal; nothing to conclude here
+					}
+				}()
+				rerr = d.updateCell(before.Keys[idx], tooBig)
+			}()
+			if rerr != nil {
+				if msg := c12Equal(want, c12LogicalOf(d)); msg != "" {
+					return fmt.Sprintf("updateCell refused a %d-byte value for cell %d (%v) but changed the page: %s", len(tooBig), idx, rerr, msg)
+				}
+			} else {
+				// accepted (a tree with another limit): take it as the new content
+				want.Values[idx] = tooBig
+			}
 			buf3, err := d.encode()
 			if err != nil {
 				return fmt.Sprintf("encode after an update on the page read back failed: %v", err)
